@@ -4,6 +4,7 @@ import JediModel.Lemmas.Names
 import JediModel.Model.ParsoPos
 import JediModel.Lemmas.ScriptParse
 import JediModel.Gen.C17
+import JediModel.Lemmas.DefRange
 /-! C17 — every reported position is faithful to the text.  The API's `line` / `column` are
 the `start_pos` of the parso leaf of the name (`Gen.C17.positionSource`); parso's `start_pos`
 law is `Model/Tree.positions`; the buffer's lines are `Model/Text.splitLines`. -/
@@ -489,5 +490,101 @@ def demo : T := .node 0 "file_input" [
   .leaf 7 "endmarker" [] []]
 example : CRLFSafe demo := by decide
 example : (positions demo).map (·.2) = [⟨1, 1⟩, ⟨1, 3⟩, ⟨1, 5⟩, ⟨1, 6⟩, ⟨2, 1⟩, ⟨2, 8⟩, ⟨3, 0⟩] := by decide
+
+/-! ## "its definition start/end range encloses that location"
+
+`get_definition_start_position` / `get_definition_end_position` over the leaf layout
+(`Model/DefRange`), with the scope types, the newline type and the returned attribute read from the
+source.  The definition node is ANY contiguous run of leaves that contains the name leaf (which run
+parso's `get_definition()` picks is a parameter); the theorems hold for every text, every prefix
+(comments, blank lines, continuation lines) and every position of the name in the run. -/
+section DefRange
+open JediModel.DefRange
+
+/-- the two functions as found in the source -/
+def defCfg : Cfg :=
+  { scopeTypes := JediModel.Gen.C17.defRangeScopeTypes, newlineType := JediModel.Gen.C17.defRangeNewlineType,
+    usesPreviousLeafEnd := JediModel.Gen.C17.defRangeUsesPreviousLeafEnd }
+
+theorem def_range_source_shape :
+    defCfg = { scopeTypes := ["function", "class"], newlineType := "newline", usesPreviousLeafEnd := true } ∧
+      JediModel.Gen.C17.defRangeStartShape =
+        ["tree_name is None -> None", "definition is None -> name.start_pos", "definition.start_pos"] := by
+  decide
+
+/-- **The definition range encloses the name** - for every laid-out run of leaves `d` (from any
+position `p`, with any prefixes), every API type, every name leaf in it that is not a newline leaf:
+both positions exist, `start ≤ name.start` and `name.end ≤ end`. -/
+theorem def_range_encloses (p : Pos) (d : List LeafInfo) (apiType : String) (before : Option Span)
+    (name : Span) (hmem : name ∈ spans p d) (hname : name.leaf.type ≠ defCfg.newlineType) :
+    ∃ s e, defStart name (some (spans p d)) = some s ∧
+      defEnd defCfg apiType name before (some (spans p d)) = some e ∧
+      s ≤ name.start ∧ name.stop ≤ e := by
+  have hord := spans_Ordered p d
+  obtain ⟨hd, hhd⟩ : ∃ z, (spans p d).head? = some z := by
+    cases h : spans p d with
+    | nil => rw [h] at hmem; cases hmem
+    | cons a as => exact ⟨a, rfl⟩
+  obtain ⟨lst, hlst⟩ : ∃ z, (spans p d).getLast? = some z := by
+    cases h : (spans p d).getLast? with
+    | none => rw [List.getLast?_eq_none_iff] at h; rw [h] at hmem; cases hmem
+    | some z => exact ⟨z, rfl⟩
+  refine ⟨hd.start, ?_⟩
+  have hs : defStart name (some (spans p d)) = some hd.start := by simp [defStart, hhd]
+  have hstart := hord.head_le hmem hhd
+  have hend := hord.le_last hmem hlst
+  have hu : defCfg.usesPreviousLeafEnd = true := by decide
+  unfold defEnd
+  simp only [hlst]
+  by_cases hsc : defCfg.scopeTypes.contains apiType = true
+  · simp only [hsc, if_true]
+    by_cases hnl : (lst.leaf.type == defCfg.newlineType) = true
+    · simp only [hnl, if_true]
+      -- the name is not the trailing newline leaf, so it lies in `dropLast`, whose last leaf is `prev`
+      have hne : name.leaf.type ≠ lst.leaf.type := by
+        intro e; apply hname; rw [e]; exact eq_of_beq hnl
+      have hin := mem_dropLast_of_ne_last hmem hlst hne
+      obtain ⟨q, hq⟩ : ∃ q, (spans p d).dropLast.getLast? = some q := by
+        cases h : (spans p d).dropLast.getLast? with
+        | none => rw [List.getLast?_eq_none_iff] at h; rw [h] at hin; cases hin
+        | some z => exact ⟨z, rfl⟩
+      refine ⟨q.stop, hs, by simp [hq, hu], hstart, hord.dropLast.le_last hin hq⟩
+    · simp only [hnl]
+      exact ⟨lst.stop, hs, rfl, hstart, hend⟩
+  · simp only [hsc]
+    exact ⟨lst.stop, hs, rfl, hstart, hend⟩
+
+/-- without a definition (`get_definition()` is `None`) the range is the name itself -/
+theorem def_range_without_definition (apiType : String) (before : Option Span) (name : Span) :
+    defStart name none = some name.start ∧ defEnd defCfg apiType name before none = some name.stop :=
+  ⟨rfl, rfl⟩
+
+/-- `def f():` / `    return 1` + newline: the leaves of the funcdef, the name `f` at (1,4)-(1,5) -/
+private def exLeaves : List LeafInfo :=
+  [⟨1, "keyword", [], "def".toList⟩, ⟨2, "name", " ".toList, "f".toList⟩, ⟨3, "operator", [], "(".toList⟩,
+   ⟨4, "operator", [], ")".toList⟩, ⟨5, "operator", [], ":".toList⟩, ⟨6, "newline", [], "\n".toList⟩,
+   ⟨7, "keyword", "    ".toList, "return".toList⟩, ⟨8, "number", " ".toList, "1".toList⟩,
+   ⟨9, "newline", [], "\n".toList⟩]
+
+/-- non-vacuity and the trailing-newline rule: the end is the end of `1` on line 2, not (3, 0) -/
+example : (defEnd defCfg "function" ⟨⟨2, "name", " ".toList, "f".toList⟩, ⟨1, 4⟩, ⟨1, 5⟩⟩ none
+    (some (spans ⟨1, 0⟩ exLeaves))) = some ⟨2, 12⟩ ∧
+    defStart ⟨⟨2, "name", " ".toList, "f".toList⟩, ⟨1, 4⟩, ⟨1, 5⟩⟩ (some (spans ⟨1, 0⟩ exLeaves)) = some ⟨1, 0⟩ := by
+  decide
+
+/-- witness: returning the START of the previous leaf (or of the newline) does not enclose a name that
+IS that previous leaf - `class K: pass` would be fine, `def f(): g` + newline with the cursor name
+`g` is not: the end (1, 9) lies before the end (1, 10) of `g`. -/
+theorem def_range_start_pos_variant_witness :
+    let ls : List LeafInfo := [⟨1, "keyword", [], "def".toList⟩, ⟨2, "name", " ".toList, "f".toList⟩,
+      ⟨3, "operator", [], "(".toList⟩, ⟨4, "operator", [], ")".toList⟩, ⟨5, "operator", [], ":".toList⟩,
+      ⟨6, "name", " ".toList, "g".toList⟩, ⟨7, "newline", [], "\n".toList⟩]
+    let g : Span := ⟨⟨6, "name", " ".toList, "g".toList⟩, ⟨1, 9⟩, ⟨1, 10⟩⟩
+    g.start = ((spans ⟨1, 0⟩ ls)[5]?.map (·.start)).getD ⟨0, 0⟩ ∧
+    defEnd { defCfg with usesPreviousLeafEnd := false } "function" g none (some (spans ⟨1, 0⟩ ls)) = some ⟨1, 9⟩ ∧
+    ¬ (g.stop ≤ (⟨1, 9⟩ : Pos)) := by
+  decide
+
+end DefRange
 
 end JediModel.Props.C17
